@@ -21,7 +21,7 @@ LEVEL_TEXT = ("AdminAuth.tla holds the route table of the four administrative li
               "(status, body class, canary leak, state changed) record")
 LEVEL_NOTE = ("bounded: 13 user lists x trusted proxy on/off, 8 credential placements, 4 forwarded addresses; quick tier "
               "samples settings per route; status clause left open for non-canonical URLs (router redirects), unknown "
-              "URLs / wrong methods on the playback listener and playback requests without a valid path name "
+              "URLs / wrong methods on the playback listener and playback requests without a valid path name (requests with a valid name and unacceptable other parameters, or a valid name that no path configuration matches, are judged in full) "
               "(no data / no state change is still demanded); parents and protocol servers are stubs")
 TECHNIQUE = "TLA+ model (TLC): exhaustive bounded MC + generated cases replayed on the real servers + trace validation"
 
@@ -73,8 +73,15 @@ def _concretize(cid, route, tg, setting, pp):
             q += [("path", marker), ("start", _segment_start())]
         elif route["svc"] == "playback":
             if pp != "none":
-                q.append(("path", {"cam1": "cam1", "other": "other", "inv": "cam1/"}[pp]))
-            if pat == "/get":
+                q.append(("path", {"cam1": "cam1", "other": "other", "cam1bad": "cam1", "unconf": "nocam", "inv": "cam1/"}[pp]))
+            if pp == "cam1bad":
+                # a valid, configured path name and another parameter that is not acceptable
+                if pat == "/get":
+                    q += [[("start", "yesterday"), ("duration", "2")], [("start", _segment_start()), ("duration", "long")],
+                          [("start", _segment_start()), ("duration", "2"), ("format", "avi")], [("duration", "2")]][cid % 4]
+                else:
+                    q += [[("start", "yesterday")], [("end", "tomorrow")]][cid % 2]
+            elif pat == "/get":
                 q += [("start", _segment_start()), ("duration", "2")]
     if pat in ("/debug/pprof/profile", "/debug/pprof/trace"):
         q.append(("seconds", "1"))
@@ -149,7 +156,7 @@ def run(ctx):
         for tg in targets[i]:
             pps = [""]
             if rt["svc"] == "playback":
-                pps = ["cam1", "other", "inv", "none"] if (rt["kind"] != "unk" and tg == "reg") else ["cam1"]
+                pps = ["cam1", "other", "cam1bad", "unconf", "inv", "none"] if (rt["kind"] != "unk" and tg == "reg") else ["cam1"]
             for pp in pps:
                 triples.append((i, tg, pp))
     cases, meta = [], {}
@@ -162,7 +169,7 @@ def run(ctx):
             if rt["svc"] == "pprof" and rt["pat"] in ("/debug/pprof/profile", "/debug/pprof/trace"):
                 k = 8
             # half of the sample from settings the statement admits (for this listener / path), half from the others
-            key = rt["svc"] if rt["svc"] != "playback" else {"cam1": "cam1", "other": "other"}.get(pp, "nopath")
+            key = rt["svc"] if rt["svc"] != "playback" else {"cam1": "cam1", "other": "other", "cam1bad": "cam1", "unconf": "unconf"}.get(pp, "nopath")
             yes = [x for x in settings if x["adm"][key] == 1]
             no = [x for x in settings if x["adm"][key] != 1]
             chosen = rnd.sample(yes, min(len(yes), k // 2)) + rnd.sample(no, k - min(len(yes), k // 2))
@@ -241,7 +248,7 @@ def run(ctx):
     sidx = {(x["inst"], x["cred"], x["xff"]): x for x in settings}
 
     def code(m):
-        key = m["svc"] if m["svc"] != "playback" else {"cam1": "cam1", "other": "other"}.get(m["pp"], "nopath")
+        key = m["svc"] if m["svc"] != "playback" else {"cam1": "cam1", "other": "other", "cam1bad": "cam1", "unconf": "unconf"}.get(m["pp"], "nopath")
         return sidx[(m["inst"], m["cred"], m["xff"])]["adm"][key]
     n_adm = sum(1 for (m, _) in recs if m["tg"] != "pre" and code(m) == 1)
     n_rej = sum(1 for (m, _) in recs if m["tg"] != "pre" and code(m) == 0)
